@@ -103,7 +103,7 @@ pub const REQUIRED: &[&str] = &["padded_header", "no_padded_header", "empty_file
 
 pub fn run(cx: &mut Ctx) {
     cx.require(REQUIRED);
-    cx.rule = "arc images are built by the reference builder on top of the reference bin-archive writer: 0..=20 files with distinct names, sizes {0,1,3,4,5, random <= 2 KiB}, with/without the 0x60 zero header, tables before or after the bodies (so the last body can end the data region, incl. an empty file at the very end), record order and body order shuffled independently, gaps between bodies, decoy labels (Data, per-record name labels as in the sample file), canonical or permuted archive layout; error variants: no Count label, no Info label, a record without a name string, a record whose range leaves the data region (size too big, offset beyond the end, offset + 0x60 overflowing 32 bits). non-trivial = >=2 files with record order != body order; distinct by (files, plan) hash".into();
+    cx.rule = "arc images are built by the reference builder on top of the reference bin-archive writer: 0..=20 files with distinct names, sizes {0,1,3,4,5, random <= 2 KiB}, with/without the 0x60 zero header, tables before or after the bodies (so the last body can end the data region, incl. an empty file at the very end), record order and body order shuffled independently, gaps between bodies, decoy labels (Data, per-record name labels as in the sample file), canonical or permuted archive layout; error variants: no Count label, no Info label, a record without a name string, a record whose range leaves the data region (size too big, offset beyond the end, offset + 0x60 overflowing 32 bits). non-trivial = >=2 files with record order != body order; 1023..65537 records; bodies of 4095..1 MiB bytes around multiples of 4 KiB; arcs without files lacking a label; distinct by (files, plan) hash".into();
     let miri = cfg!(miri);
     cx.case("directed", |c| {
         let files: Files = vec![("ArcTest1.bin".into(), vec![1, 2, 3, 4, 5]), ("ArcTest1.bin.lz".into(), vec![]), ("日本.bin".into(), vec![9; 7])];
